@@ -6,6 +6,11 @@ from pvlib import Check
 from checks import evalfam, evalcheck
 
 
+def pvlib_quote(x):
+    """the worker's rendering of a str (Go strconv.Quote) for the plain-ASCII texts used here"""
+    return '"' + x.replace("\\", "\\\\").replace('"', '\\"').replace("\t", "\\t") + '"'
+
+
 def run():
     ck = Check("C07")
     thorough = ck.tier == "thorough"
@@ -104,6 +109,30 @@ def run():
             ck.reject(f"C07:lazy-source:{sname}:{cons.split('(')[0].split(' ')[0]}:{handler}", f"{rq['src']!r}: the source raises while it computes its second element; observed {o['events']} {o['end']}, "
                       f"expected {want}", {"src": rq["src"], "observed": [o["events"], o["end"]], "expected": want, "quiet_run": qo["events"]})
     ck.cov["lazy_source_programs_judged"] = lazy_judged
+    # "the same message is delivered": messages that carry the user's own text (raise X.new(text), conversions and unpackings that quote the value)
+    # must carry it verbatim, whatever characters it has - and the handler gets exactly the text an unhandled failure reports
+    texts = ["50%d%s100%", "%", "%%", "100%!", "a%vb", "%[1]d", "q`uote", "{}", "hash#sign", "%!s(MISSING)"]
+    forms = [("{v}.I", "ValueErr"), ("{v}.F", "ValueErr"), ("[*{v}]", "TypeErr"), ("raise Err.new({v})", "Err"), ("raise ValueErr.new({v})", "ValueErr"), ("assertEq({v}, 1)", "AssertionErr"),
+             ("1 + {v}", "TypeErr"), ("{{|x| x}}(**{v})", "TypeErr"), ("JSON.dec(\"@\" + {v})", "ValueErr"), ("f := {{|| raise TypeErr.new({v})}}; f()", "TypeErr"),
+             ("[1, 2]@{{|e| raise Err.new({v}) if e == 2}}", "Err"), ("defer 1; raise NameErr.new({v})", "NameErr")]
+    mreqs, mmeta = [], []
+    for t in texts:
+        lit = '"' + t + '"'
+        for f, kind in forms:
+            src = f.format(v=lit)
+            mreqs.append({"id": f"M{len(mreqs)}", "src": src})
+            mreqs.append({"id": f"M{len(mreqs)}", "src": f"e := nil.try.{{|u| {{|| {src}}}()}}.err; [e.type._name, e.msg]"})
+            mmeta.append((t, src, kind))
+    mout = run_cases(mreqs, label="C07 messages with the user's text")
+    for k, (t, src, kind) in enumerate(mmeta):
+        top, held = mout[f"M{2 * k}"]["end"], mout[f"M{2 * k + 1}"]["end"]
+        plain = t
+        msg = top.split(":", 2)[2] if top.startswith("err:") and top.count(":") >= 2 else None
+        ok = msg is not None and top.startswith(f"err:{kind}:") and plain in msg and held == "val:[" + pvlib_quote(kind) + ", " + pvlib_quote(msg) + "]"
+        if not ok:
+            ck.reject(f"C07:message-text:{src.split('(')[0].split(' ')[0][:12]}", f"{src!r}: unhandled it ends with {top}; a handler receives {held}; the message must carry {plain!r} verbatim and be the same in both",
+                      {"src": src, "observed": [top, held], "text": plain})
+    ck.cov["message_text_programs"] = len(mmeta)
     reached = sum(1 for r in res.values() if r["status"] == "ok" and "out:70" in r["observed"]["ev"] and "out:71" not in r["observed"]["ev"])
     ck.cov["evaluations"] = len(fam)
     ck.cov["distinct_nontrivial"] = reached
